@@ -5,6 +5,7 @@ package content
 import (
 	"bytes"
 	"io"
+	"math"
 
 	"seehuhn.de/go/pdf"
 	"seehuhn.de/go/pdf/internal/verifrt"
@@ -233,4 +234,42 @@ func Verif_C15_window_position() {
 	verifrt.Cover("scanned")
 	verifrt.Assert(err == nil, "scanner reports no error")
 	verifrt.Assert(verifSameOps([]Operator{op, follow}, got), "operators written are the operators read at any window position")
+}
+
+// Verif_C15_real_operands: real operands with full-precision decimal
+// expansions (p/q for small p and q) and reals around every fourth binary
+// exponent in the range the content stream syntax can carry, written by
+// Operator.Format and read back.  Concrete per path (floating point is not
+// encodable); the solver enumerates the grid.
+func Verif_C15_real_operands() {
+	var x float64
+	if verifrt.Choice("family", 2) == 0 {
+		qs := []float64{3, 7, 9, 11, 13, 17, 19, 23, 29, 31}
+		p := float64(1 + verifrt.Len("p", 0, 39))
+		x = p / qs[verifrt.Choice("q", len(qs))]
+		if verifrt.Choice("scaled", 2) == 1 {
+			x *= 61.5
+		}
+	} else {
+		e := verifrt.Len("exp", 0, 30)*4 - 40 // 2^-40 .. 2^80
+		x = math.Ldexp(1, e)
+		switch verifrt.Choice("neighbour", 3) {
+		case 1:
+			x = math.Nextafter(x, 0)
+		case 2:
+			x = math.Nextafter(x, math.Inf(1))
+		}
+	}
+	if verifrt.Choice("negative", 2) == 1 {
+		x = -x
+	}
+	op := Operator{Name: "w", Args: []pdf.Object{pdf.Real(x)}}
+	var b bytes.Buffer
+	verifrt.Assert(op.Format(&b) == nil, "Format succeeds")
+	got, err := verifScanFrom(bytes.NewReader(b.Bytes()))
+	verifrt.Cover("scanned")
+	verifrt.Assert(err == nil && len(got) == 1 && len(got[0].Args) == 1, "one operator with one operand is read")
+	if len(got) == 1 && len(got[0].Args) == 1 {
+		verifrt.Assert(verifObjEqual(op.Args[0], got[0].Args[0]), "real operand re-reads as the same value")
+	}
 }
